@@ -243,14 +243,14 @@ def build_driver():
     return False, out
 
 
-def run_driver(cases, workdir, tag="cases", sub="gen", timeout=3000):
+def run_driver(cases, workdir, tag="cases", sub="gen", timeout=3000, env=None):
     os.makedirs(workdir, exist_ok=True)
     cin = os.path.join(workdir, tag + ".jsonl")
     cout = os.path.join(workdir, tag + ".results.jsonl")
     with open(cin, "w") as f:
         for c in cases:
             f.write(json.dumps(c, ensure_ascii=False) + "\n")
-    rc, out = sh([DRIVER, sub, cin, cout], timeout=timeout)
+    rc, out = sh([DRIVER, sub, cin, cout], timeout=timeout, env=env)
     if rc != 0:
         raise RuntimeError("driver failed: " + out[-3000:])
     res = []
